@@ -129,11 +129,11 @@ func expandDyn(p *Program, progs map[string]*WireProg, root types.Type, set map[
 }
 
 type exclusionSpec struct {
-	name     string // rule instance prefix
-	prog     string // wire program
-	root     [2]string
-	rootPath string                    // path of the object inside the program ("" receiver)
-	excluded func(lp LeafPath) string  // reason if the statement excludes the path
+	name      string // rule instance prefix
+	prog      string // wire program
+	root      [2]string
+	rootPath  string                   // path of the object inside the program ("" receiver)
+	excluded  func(lp LeafPath) string // reason if the statement excludes the path
 	unsettled func(lp LeafPath) string // reason if the statement does not settle the path
 }
 
